@@ -124,6 +124,13 @@ void Ctx::c04() {
                 if (!pubrec_here) continue;
                 want = PUBCOMP;
             }
+            // the client must still be reading this connection: a later read proves that the delivered bytes were parsed. (When the
+            // 1.5*K read timer and the data become ready at the same instant and the timer's handler runs first, read_op reports a
+            // time-out and drops the bytes that the completed read had already taken from the transport; the reader reconnects while
+            // the writer keeps pinging on the old stream for as long as the new attempts take.)
+            bool read_after = false;
+            for (auto& rr : s.net.reads) if (rr.conn == sp.conn && rr.seq_start > sp.delivered_seq) { read_after = true; break; }
+            if (!read_after) continue;
             // no composed write of this connection may have taken long inside the window (short writes with slow completions add up)
             bool slow_write = false;
             for (auto& g : s.net.groups) if (g.conn == sp.conn && g.t_start <= sp.delivered_t + T && (!g.done || g.t_done >= sp.delivered_t) && (!g.done || g.t_done - g.t_start > 2 * SEC)) slow_write = true;
@@ -517,6 +524,9 @@ void Ctx::c12() {
     auto K_of = [&](int ci) -> int {
         auto* bc = B.bc(ci);
         if (!bc || bc->connack_sent_idx < 0) return -1;
+        // the configured authenticator rejected the handshake (possibly right after the CONNACK): the client never regarded this
+        // connection as established, no keep-alive duty on it
+        for (auto& l : s.logs) if (l.k == LogRec::auth_step && l.n == 1 && l.ec == ci) return -1;
         return bc->caps.server_ka ? (int)*bc->caps.server_ka : (int)cfg.keep_alive.value_or(60);
     };
     // (2) timed reads: every post-handshake read lives at most 1.5*K; it is abandoned (slot cancel) exactly then, never earlier
@@ -577,6 +587,18 @@ void Ctx::c12() {
         for (auto& m : s.marks)
             if ((m.kind == MarkKind::cancel_client || m.kind == MarkKind::disconnect_init || m.kind == MarkKind::destroy || (m.kind == MarkKind::op_cancel && m.arg == 1)) &&
                 m.seq > ca.delivered_seq && m.t < alive_until) { alive_until = m.t; alive_seq = m.seq; }
+        {   // an async_disconnect that was initiated before this connection's CONNACK and is still going on (a terminal DISCONNECT
+            // whose write failed is repeated on the next connection): nothing but the DISCONNECT may be written here (C09), no ping duty;
+            // likewise a cancel()/destruction/terminal cancellation that fell into this connection's handshake
+            bool going_down = false;
+            for (auto& m : s.marks) {
+                if (m.seq > ca.delivered_seq) continue;
+                if (m.kind == MarkKind::disconnect_init && m.op >= 0 && m.op < (int)s.ops.size() &&
+                    (s.ops[m.op].dones.empty() || s.ops[m.op].dones[0].seq > ca.delivered_seq)) going_down = true;
+                if ((m.kind == MarkKind::cancel_client || m.kind == MarkKind::destroy || (m.kind == MarkKind::op_cancel && m.arg == 1)) && m.seq >= nc.seq_begin) going_down = true;
+            }
+            if (going_down) continue;
+        }
         // a reconnect triggered on this connection (e.g. after a server DISCONNECT or FIN) ends its ping duty
         for (auto& c2 : s.net.conns) if (c2->id > (int)ci && c2->t_begin < alive_until) { alive_until = c2->t_begin; alive_seq = c2->seq_begin; }
         for (auto& r : s.resolver.log) if (r.seq > ca.delivered_seq && r.t < alive_until) { alive_until = r.t; alive_seq = r.seq; }
